@@ -58,8 +58,8 @@ Theorem C15_parser_from_source : forall s : str, run_parse fn_ParseValidNameKV s
 Proof. exact parse_from_source. Qed.
 Print Assumptions C15_parser_from_source.
 
-(* THE DISCIPLINE, FROM THE SOURCE TEXT OF 24 RULE FUNCTIONS (to oto ge gt le lt eq noeq phone email idcard ip ipv4 ipv6
-   year year2month date prefix suffix int float json file dir; in include ints unique re datetime are hand-modelled):
+(* THE DISCIPLINE, FROM THE SOURCE TEXT OF 29 RULE FUNCTIONS (to oto ge gt le lt eq noeq phone email idcard ip ipv4 ipv6
+   year year2month date prefix suffix int float json file dir ints unique in include datetime; re is hand-modelled):
    for every rule text, names and value each of them returns, and what it wrote is nothing, or ONE clause of
    GetJoinValidErrStr whose explanation is the rule's message alone when the rule text has one (sh_custom) and the default
    wording behind the English label only when it has none (sh_default; for an unreadable path os.Stat's text, sh_stat);
